@@ -12,7 +12,7 @@ CHECK = {
         "algebra_exhaustive",
         "eq_double", "eq_float", "eq_int", "gt_double", "gt_float", "gt_int", "lt_double", "lt_float", "lt_int",
         "reliability", "regime_exact", "regime_generic", "epsilon_zero",
-        "value_on_threshold", "value_one_ulp_above", "value_one_ulp_below",
+        "value_on_threshold", "value_one_ulp_above", "value_one_ulp_below", "value_just_outside_band",
         "scale_tiny_subnormal", "scale_huge",
         "seq_timeout_then_evaluate", "seq_error_low_and_high", "seq_multi_step",
         "status_lists_random", "status_lists_length_20",
@@ -26,7 +26,8 @@ CHECK = {
         "worse.pairs_exhaustive", "worse.triples_exhaustive", "worse.commutative", "worse.associative",
         "worse.idempotent", "worseStatus.lists_le4_exhaustive", "allOK.lists_le4_exhaustive",
         "worseStatus.lists_random", "allOK.lists_random",
-        "append.diagnostics_concatenated_in_order", "append.info_merged"],
+        "append.diagnostics_concatenated_in_order", "append.info_merged",
+        "band.disagreement_distance_over_band"],
     "required_counters": ["algebra_pairs", "algebra_triples", "lists_exhaustive", "threshold_evaluations", "timeouts"],
     "rule": "case 0 = the complete status algebra (16 pairs, 64 triples, all 340 status lists of length 1..4); every other "
             "case is one of: (66%) a sequence of 1..8 evaluate/timeout steps on one CheckupEqualTo/GreaterThan/LowerThan "
@@ -35,13 +36,14 @@ CHECK = {
             "(small key pool to force duplicate keys).  (target, epsilon) are either dyadic (a*2^-k, b*2^-k, |a|,b <= 2^20, k "
             "from moderate, subnormal and huge ranges, epsilon 0 in 20%) so that the thresholds are exactly representable, or "
             "generic (log-uniform magnitudes 1e-6..1e6, subnormal, near the type's maximum); values are the threshold itself, "
-            "nextafter on either side, 2..4 ulps off, grid neighbours, the target, far values, 0 and +-max; int operands keep "
+            "nextafter on either side, 2..4 ulps off, grid neighbours, (generic regime) 4.5..1e4 eps*max(|t|,|e|) off i.e. just outside "
+            "the ambiguity band, the target, far values, 0 and +-max; int operands keep "
             "|target| <= 2^30, epsilon < 2^30; non-trivial = a threshold sequence with at least one value on / within 4 ulps "
-            "of a threshold or an evaluation after a timeout, a status list longer than 4 with >= 2 distinct statuses, an "
+            "/ within 1e4 eps*max of a threshold or an evaluation after a timeout, a status list longer than 4 with >= 2 distinct statuses, an "
             "append chain of >= 2 operands or with duplicate keys (none of which the unit tests contain)",
     "level_text": "exploration, with an exhaustive part: the status algebra (worse over all 16 pairs and 64 triples, "
                   "worseStatus and allOK over all 340 lists of length <= 4) is enumerated completely on every run; the real "
-                  "check-up objects are then driven through 3e5 (quick) / 5e7 (thorough) generated cases -- about 1.1e6 / 1.8e8 "
+                  "check-up objects are then driven through 3e5 (quick) / 5e7 (thorough) generated cases -- about 1e6 / 1.6e8 "
                   "threshold evaluations in sequences mixed with timeouts, concentrated on the thresholds and their "
                   "nextafter neighbours for double, float and int -- and after every step the returned status, the stored "
                   "status, the message, and the info entry are compared with the real-number predicate of the statement "
@@ -55,7 +57,10 @@ CHECK = {
         "exact regime: target and epsilon are multiples of one power of two with |a|+b < 2^21, so target-epsilon and "
         "target+epsilon are exactly representable in float and double and the floating verdict must equal the real one",
         "generic regime: the verdict is required only when the value is further than 4 eps(T) max(|target|,|epsilon|) from a "
-        "threshold; inside that band either neighbouring verdict is accepted (counted under skipped_as_ambiguous)",
+        "threshold; inside that band either neighbouring verdict is accepted (counted under skipped_as_ambiguous); a correctly "
+        "rounded threshold is within eps/2*|t+-e| <= eps*max of the real one, so the reported ratio "
+        "band.disagreement_distance_over_band (largest distance at which the library and the real verdict differ, over the "
+        "band) is bounded by 0.25 and approaches it",
         "int check-ups: |target| <= 2^30 and epsilon < 2^30 so that target+-epsilon does not overflow int (signed overflow "
         "of the threshold expression itself is outside the domain exercised)",
         "low <= high for the reliability check-up; worseStatus/allOK are called on non-empty lists only (the library asserts "
